@@ -22,6 +22,7 @@ use noodles_cram::{self as cram, crai};
 use vmc::{Chooser, Config, Outcome, Violation};
 
 const LAYOUTS: [Option<usize>; 4] = [None, Some(1), Some(2), Some(3)];
+const SHAPE_LAYOUTS: [Option<usize>; 7] = [None, Some(1), Some(2), Some(3), Some(4), Some(5), Some(7)];
 
 #[derive(Clone, Debug)]
 enum Reg {
@@ -80,8 +81,11 @@ fn regions(len: usize, recs: &[Rec], rid: usize, complete_up_to: usize) -> Vec<R
         pts.extend([1, len, len + 1]);
         for r in recs.iter().filter(|r| r.rid == Some(rid)) {
             if let Some(p) = r.pos {
-                let e = r.end().unwrap_or(p + r.seq.len().max(1) - 1);
-                for x in [p.saturating_sub(1), p, p + 1, e.saturating_sub(1), e, e + 1] {
+                // the end by the CIGAR (SAM rule; POS itself for a CIGAR-less read) and the end a reader
+                // would get from the read length instead - both are breakpoints, each with +-1
+                let e = r.end().unwrap_or(p);
+                let l = p + r.seq.len().max(1) - 1;
+                for x in [p.saturating_sub(1), p, p + 1, e.saturating_sub(1), e, e + 1, l.saturating_sub(1), l, l + 1] {
                     if x >= 1 && x <= len + 1 {
                         pts.push(x);
                     }
@@ -106,31 +110,21 @@ fn regions(len: usize, recs: &[Rec], rid: usize, complete_up_to: usize) -> Vec<R
 #[derive(PartialEq)]
 enum Want {
     Must,
-    May,
     No,
 }
 
-/// The harness's own filter: on the named reference and intersecting by POS + Σ M/D/N/=/X. A placed
-/// read without a reference span (unmapped, or no CIGAR) is `May` when the region touches
-/// `[POS, POS + max(len,1) - 1]`: the specification leaves open what such a read covers.
+/// The harness's own filter, the overlap rule of the SAM specification computed from the CIGAR: on
+/// the named reference and `POS <= b && end >= a` with `end = POS + sum(M,D,N,=,X) - 1`; a read without
+/// reference span (placed unmapped read, no CIGAR) covers exactly `[POS, POS]` (SAM section 5.3 / the
+/// binning rule: "unmapped reads or reads without CIGAR are treated as having length 1"; this is also
+/// what `RecordBuf::alignment_end` gives). Its bases do not count.
 fn want(r: &Rec, rid: usize, a: usize, b: usize) -> Want {
     if r.rid != Some(rid) {
         return Want::No;
     }
     let Some(p) = r.pos else { return Want::No };
-    match r.end() {
-        Some(e) if !r.is_unmapped() => {
-            if p <= b && e >= a {
-                Want::Must
-            } else {
-                Want::No
-            }
-        }
-        _ => {
-            let e = p + r.seq.len().max(1) - 1;
-            if p <= b && e >= a { Want::May } else { Want::No }
-        }
-    }
+    let e = r.end().unwrap_or(p);
+    if p <= b && e >= a { Want::Must } else { Want::No }
 }
 
 fn fp_layout(multi: bool) -> &'static str {
@@ -345,11 +339,39 @@ fn run_queries(
         .set_index(index.clone())
         .build_from_reader(file)
         .expect("harness: indexed reader");
-    let h2 = match vmc::catch(|| reader.read_header()) {
+    let _ = vmc::catch(|| reader.read_header());
+    // the async reader over the same bytes (Ready source: the poll adversaries are C16's subject)
+    let bytes = std::fs::read(path).expect("harness: read temp file");
+    let mut areader = cram::r#async::io::reader::Builder::default()
+        .set_reference_sequence_repository(repo.clone())
+        .build_from_reader(std::io::Cursor::new(bytes));
+    let aheader = match vmc::catch(|| vrt::block_on(areader.read_header())) {
         Ok(Ok(h)) => h,
-        _ => header.clone(),
+        other => {
+            return Err(Violation::new(
+                "op=query api=async step=read_header outcome=failed",
+                describe(),
+                "Ok(header)",
+                format!("{:?}", other.map(|r| r.map(|_| ()))),
+            ));
+        }
     };
-    let _ = h2;
+    let limit = scan.len() * 4 + 16;
+    let names: Vec<&str> = env.refs.iter().map(|r| r.name).collect();
+    let show = |v: &[&Rec]| -> String {
+        v.iter()
+            .map(|r| {
+                format!(
+                    "{}@{}:{}-{}",
+                    String::from_utf8_lossy(r.name.as_deref().unwrap_or(b"*")),
+                    r.rid.map(|i| names[i]).unwrap_or("*"),
+                    r.pos.unwrap_or(0),
+                    r.end().or(r.pos).unwrap_or(0)
+                )
+            })
+            .collect::<Vec<_>>()
+            .join(",")
+    };
     let mut n_queries = 0u64;
     let mut n_hits = 0u64;
     let mut log: Vec<u32> = Vec::new();
@@ -359,16 +381,8 @@ fn run_queries(
             let (a, b) = reg.bounds();
             let region = reg.region(r.name);
             let kind = reg.kind(r.seq.len());
-            let viol = |outcome: &str, expected: String, observed: String| {
-                Err(Violation::new(
-                    format!("op=query index={which_index} layout={} region={kind} outcome={outcome}", fp_layout(multi)),
-                    format!("{} ; region {}", describe(), reg.text(r.name)),
-                    expected,
-                    observed,
-                ))
-            };
             // every 7th region also through Reader::query (same machinery, other entry point)
-            let got: Result<std::io::Result<Vec<Rec>>, (String, String)> = if qi % 7 == 3 {
+            let sync_got: Result<std::io::Result<Vec<Rec>>, (String, String)> = if qi % 7 == 3 {
                 vmc::catch(|| {
                     let f = File::open(path)?;
                     let mut rd = cram::io::reader::Builder::default()
@@ -379,7 +393,7 @@ fn run_queries(
                     let mut out = Vec::new();
                     for res in q.records() {
                         out.push(Rec::from_record_buf(&res?));
-                        if out.len() > scan.len() * 4 + 16 {
+                        if out.len() > limit {
                             break;
                         }
                     }
@@ -391,88 +405,59 @@ fn run_queries(
                     let mut out = Vec::new();
                     for res in q.records() {
                         out.push(Rec::from_record_buf(&res?));
-                        if out.len() > scan.len() * 4 + 16 {
+                        if out.len() > limit {
                             break;
                         }
                     }
                     Ok(out)
                 })
             };
-            n_queries += 1;
-            let got = match got {
-                Ok(Ok(v)) => v,
-                Ok(Err(e)) => return viol(&format!("error:{}", vmc::normalise_msg(&e.to_string())), "Ok(records)".into(), format!("Err({e})")),
-                Err((m, f)) => return viol(&format!("panic:{}", vmc::normalise_msg(&m)), "Ok(records)".into(), format!("panic: {m} in {f}")),
-            };
-            let names: Vec<&str> = env.refs.iter().map(|r| r.name).collect();
-            let show = |v: &[&Rec]| -> String {
-                v.iter()
-                    .map(|r| {
-                        format!(
-                            "{}@{}:{}-{}",
-                            String::from_utf8_lossy(r.name.as_deref().unwrap_or(b"*")),
-                            r.rid.map(|i| names[i]).unwrap_or("*"),
-                            r.pos.unwrap_or(0),
-                            r.end().unwrap_or(0)
-                        )
-                    })
-                    .collect::<Vec<_>>()
-                    .join(",")
-            };
-            let must: Vec<&Rec> = scan.iter().filter(|x| want(x, rid, a, b) == Want::Must).collect();
-            // order-preserving matching of the answer against the scan
-            let mut cursor = 0usize;
-            let mut matched = vec![false; scan.len()];
-            for g in &got {
-                let mut found = None;
-                for (k, s) in scan.iter().enumerate().skip(cursor) {
-                    if s == g {
-                        found = Some(k);
-                        break;
-                    }
-                }
-                match found {
-                    Some(k) => {
-                        matched[k] = true;
-                        cursor = k + 1;
-                        match want(&scan[k], rid, a, b) {
-                            Want::No => {
-                                let why = if scan[k].rid != Some(rid) { "record-of-another-reference" } else { "record-outside-region" };
-                                return viol(
-                                    &format!("extra:{why}"),
-                                    format!("[{}]", show(&must)),
-                                    format!("[{}]", show(&got.iter().collect::<Vec<_>>())),
-                                );
-                            }
-                            Want::May => ch.tag("query returned a placed read without reference span (accepted either way)"),
-                            Want::Must => {}
+            let async_got: Result<std::io::Result<Vec<Rec>>, (String, String)> = vmc::catch(|| {
+                vrt::block_on(async {
+                    let mut q = areader.query(&aheader, &index, &region)?;
+                    let mut out = Vec::new();
+                    let mut rec = noodles_sam::alignment::RecordBuf::default();
+                    while q.read_record_buf(&mut rec).await? != 0 {
+                        out.push(Rec::from_record_buf(&rec));
+                        if out.len() > limit {
+                            break;
                         }
                     }
-                    None => {
-                        let dup = scan.iter().any(|s| s == g);
-                        return viol(
-                            if dup { "duplicate-or-out-of-order" } else { "record-not-in-scan" },
-                            format!("[{}] each once, in file order", show(&must)),
-                            format!("[{}]", show(&got.iter().collect::<Vec<_>>())),
-                        );
-                    }
-                }
-            }
-            for (k, s) in scan.iter().enumerate() {
-                if want(s, rid, a, b) == Want::Must && !matched[k] {
+                    Ok(out)
+                })
+            });
+            let must: Vec<&Rec> = scan.iter().filter(|x| want(x, rid, a, b) == Want::Must).collect();
+            for (api, got) in [("sync", sync_got), ("async", async_got)] {
+                let viol = |outcome: &str, expected: String, observed: String| {
+                    Err(Violation::new(
+                        format!("op=query api={api} index={which_index} layout={} region={kind} outcome={outcome}", fp_layout(multi)),
+                        format!("{} ; region {} ; api {api}", describe(), reg.text(r.name)),
+                        expected,
+                        observed,
+                    ))
+                };
+                n_queries += 1;
+                let got = match got {
+                    Ok(Ok(v)) => v,
+                    Ok(Err(e)) => return viol(&format!("error:{}", vmc::normalise_msg(&e.to_string())), "Ok(records)".into(), format!("Err({e})")),
+                    Err((m, f)) => return viol(&format!("panic:{}", vmc::normalise_msg(&m)), "Ok(records)".into(), format!("panic: {m} in {f}")),
+                };
+                if let Err((outcome, detail)) = judge_region(scan, rid, a, b, &got, false) {
+                    // which kind of record the verdict is about (class level)
+                    let about = got
+                        .iter()
+                        .chain(scan.iter())
+                        .find(|x| x.rid == Some(rid) && x.ref_span() == 0 && x.pos.is_some())
+                        .map(|_| " doc=has-cigarless-placed-read")
+                        .unwrap_or("");
                     return viol(
-                        "missing-record",
-                        format!("[{}]", show(&must)),
-                        format!("[{}]", show(&got.iter().collect::<Vec<_>>())),
+                        &format!("{outcome}{about}"),
+                        format!("[{}] each once, in file order", show(&must)),
+                        format!("[{}] ({detail})", show(&got.iter().collect::<Vec<_>>())),
                     );
                 }
-            }
-            n_hits += got.len() as u64;
-            log.push(got.len() as u32);
-            if got.is_empty() {
-                if must.is_empty() && kind != "beyond-end" {
-                    // counted below
-                }
+                n_hits += got.len() as u64;
+                log.push(got.len() as u32);
             }
         }
     }
@@ -484,8 +469,11 @@ fn run_queries(
     if log.iter().any(|n| *n == 0) {
         ch.tag("queries returning nothing");
     }
+    if scan.iter().any(|x| x.pos.is_some() && x.ref_span() == 0) {
+        ch.tag("document with a CIGAR-less placed read (covers [POS,POS])");
+    }
     if index_from_fs {
-        ch.tag("queries through the index built by fs::index");
+        ch.tag("queries through the index built by fs::index (sync and async)");
     } else {
         ch.tag("queries through the walker-built index");
     }
@@ -557,7 +545,7 @@ fn judge_region(scan: &[Rec], rid: usize, a: usize, b: usize, got: &[Rec], only_
         }
     }
     if only_first {
-        // the one record taken must be the first the filter keeps (or a `May` record before it)
+        // the one record taken must be the first the filter keeps
         if got.is_empty() && !must.is_empty() {
             return Err(("missing-record".into(), format!("first of {} expected records", must.len())));
         }
@@ -806,27 +794,39 @@ fn body_sequences(ch: &Chooser, env: &Env, streams: &[usize]) -> Outcome {
 fn main() {
     vmc::run("C19", "model_checking", |ctx| {
         ctx.rule(
-            "base stream x records-per-slice layout {default,1,2,3} (one slice per container) enumerated completely; \
+            "harness layouts_regions_*: base stream x records-per-slice layout {default,1,2,3} (one slice per container) enumerated completely; \
              per record the fields that decide placement (CIGAR shape, position, reference, mapped/placed-unmapped/unplaced) \
-             deviate under the bound; per execution every region of the alphabet (all [a,b] on short references, all [a,b] over \
-             record breakpoints on longer ones, whole reference, open bounds, beyond the end) is queried; distinct = distinct \
-             (expected index, per-region answer sizes) logs; transitions = region queries executed",
+             deviate under the bound; per execution every region of the alphabet (all [a,b] on short references; on longer ones all [a,b] over \
+             the breakpoints start, CIGAR end, read-length end of every record, each -1/0/+1, plus 1, L, L+1; whole reference, open bounds, beyond the \
+             end) is queried through the sync IndexedReader/Reader AND the async Reader (vrt::block_on, Ready source); harness shapes_regions: the \
+             22-record 'shapes' document (clips, insertions, deletions, skips, pads, CIGAR-less placed reads with and without bases, position 1 and \
+             last base, mate-only differences, earlier reference at higher coordinates, three references + unplaced tail) x records per slice \
+             {default,1,2,3,4,5,7}; harness reader_sequences: one reader, every sequence of 2-3 steps over 9 step kinds; distinct = distinct \
+             (expected index, per-region answer sizes) logs; transitions = region queries executed (sync + async)",
         );
         ctx.assume("the container walker (gcram::walk: own ITF8/LTF8, crc32fast, md-5, miniz_oxide) reads slice boundaries correctly; it is calibrated on default-writer files in C07");
-        ctx.assume("the full scan of noodles' own reader is the baseline list the statement names; the filter (reference id, POS + sum of M/D/N/=/X) is the harness's");
-        ctx.assume("placed reads without a reference span (unmapped or CIGAR-less) may or may not be returned / counted in a span: the specification does not fix what they cover");
+        ctx.assume("the full scan of noodles' own reader is the baseline list the statement names; the filter is the harness's: reference id and the SAM overlap rule from the CIGAR (POS + sum of M/D/N/=/X - 1); a CIGAR-less placed read covers [POS,POS]");
+        ctx.assume("index spans of slices that hold CIGAR-less placed reads may end anywhere between the mapped records' end and POS + read length - 1 (a wider span only costs a container read)");
+        ctx.assume("the async side runs on a Ready in-memory source under vrt::block_on; poll schedules are C16's subject");
         ctx.assume("verdicts use slices_per_container = 1 only (the value the real writer hard-codes)");
         let refs = refs::references();
         // streams: single, multi, pairs, pairs-special
         if ctx.quick() {
-            let env = Env { refs: refs.clone(), complete_up_to: 24, devs: DevSet::GEOMETRY };
+            // quick: breakpoint regions on every reference here (the answer can only change at a
+            // breakpoint); all [a,b] on the 24 bp reference in shapes_regions and in the thorough tier
+            let env = Env { refs: refs.clone(), complete_up_to: 0, devs: DevSet::GEOMETRY };
             ctx.harness(Config::new("layouts_regions_k1", 1), |ch| body(ch, &env, &[0, 1, 2, 3], &LAYOUTS));
+            let env0 = Env { refs: refs.clone(), complete_up_to: 24, devs: DevSet::NONE };
+            ctx.harness(Config::new("shapes_regions", 0), |ch| body(ch, &env0, &[6], &SHAPE_LAYOUTS));
             ctx.harness(Config::new("reader_sequences", 0), |ch| body_sequences(ch, &env, &[1, 3]));
         } else {
             let env = Env { refs: refs.clone(), complete_up_to: 60, devs: DevSet::GEOMETRY };
             ctx.harness(Config::new("layouts_regions_k1_complete60", 1), |ch| body(ch, &env, &[0, 1, 2, 3], &LAYOUTS));
             let env2 = Env { refs: refs.clone(), complete_up_to: 24, devs: DevSet::GEOMETRY };
-            ctx.harness(Config::new("reader_sequences", 0), |ch| body_sequences(ch, &env, &[0, 1, 2, 3]));
+            let env0 = Env { refs: refs.clone(), complete_up_to: 60, devs: DevSet::NONE };
+            ctx.harness(Config::new("shapes_regions", 0), |ch| body(ch, &env0, &[6], &SHAPE_LAYOUTS));
+            ctx.harness(Config::new("shapes_regions_k1", 1), |ch| body(ch, &env2, &[6], &[None, Some(3)]));
+            ctx.harness(Config::new("reader_sequences", 0), |ch| body_sequences(ch, &env, &[0, 1, 2, 3, 6]));
             ctx.harness(Config::new("layouts_regions_k2_multi", 2), |ch| body(ch, &env2, &[1], &[None, Some(2)]));
             ctx.harness(Config::new("layouts_regions_k2_single", 2), |ch| body(ch, &env2, &[0], &[Some(1), Some(3)]));
         }
